@@ -56,19 +56,19 @@ pub fn dtan(degrees: f64) -> f64 {
 /// Returns the arc-sine of degrees
 #[inline(always)]
 pub fn dasin(degrees: f64) -> f64 {
-    degrees.to_radians().asin()
+    degrees.asin().to_degrees()
 }
 
 /// Returns the arc-cosine of degrees
 #[inline(always)]
 pub fn dacos(degrees: f64) -> f64 {
-    degrees.to_radians().acos()
+    degrees.acos().to_degrees()
 }
 
 /// Returns the arc-tangent of degrees
 #[inline(always)]
 pub fn datan(degrees: f64) -> f64 {
-    degrees.to_radians().atan()
+    degrees.atan().to_degrees()
 }
 
 /// Returns true if a and b are within epsilon
